@@ -167,13 +167,31 @@ func partC(c *core.Ctx) {
 	if !c.Quick() {
 		bound = 3
 	}
-	n := core.NumWorkers()
-	scenarios := []string{"", "pre"}
+	driveC(c, []string{"", "pre"}, bound)
+	c.Set("write_concurrent_deviation_bound", bound)
+	c.Set("write_concurrent_distinct_outcomes", c.DistinctCount("write_concurrent_outcomes"))
+}
+
+// partE runs last: a time cap cuts only its deepest bound, never another part.
+func partE(c *core.Ctx) {
+	bound := 2
+	if !c.Quick() {
+		bound = 3
+	}
+	var scenarios []string
 	for _, set := range acceptSets {
 		scenarios = append(scenarios, "accept:"+set)
 	}
-	for _, pre := range scenarios {
-		for b := 0; b <= bound; b++ {
+	driveC(c, scenarios, bound)
+	c.Set("accept_concurrent_preemption_bound", bound)
+	c.Set("accept_concurrent_distinct_outcomes", c.DistinctCount("accept_concurrent_outcomes"))
+}
+
+// driveC: bound-major, so that every scenario is finished at bound b before any starts bound b+1.
+func driveC(c *core.Ctx, scenarios []string, bound int) {
+	n := core.NumWorkers()
+	for b := 0; b <= bound && !c.Expired(); b++ {
+		for _, pre := range scenarios {
 			shards := n
 			if b < 2 {
 				shards = 1
@@ -184,9 +202,6 @@ func partC(c *core.Ctx) {
 			c.CheckShards(outs)
 		}
 	}
-	c.Set("write_concurrent_deviation_bound", bound)
-	c.Set("write_concurrent_distinct_outcomes", c.DistinctCount("write_concurrent_outcomes"))
-	c.Set("accept_concurrent_distinct_outcomes", c.DistinctCount("accept_concurrent_outcomes"))
 }
 
 func replayC(c *core.Ctx, choices []int, pre bool, scName string) {
